@@ -176,6 +176,8 @@ package common
 //@   ensures [c02-agg] result == nil && SignedType(utxo.Type) && as != nil && NoWrap(offset, utxo.Keys) ==> SignersOK(as.Signers) && ScriptOK(utxo.Script) &&
 //@       (exists lo, n int :: {Witness2(lo, n)} Witness2(lo, n) && AggWindow(as.Signers, lo, n, offset, offset + len(utxo.Keys)) && n >= utxo.Script[2] &&
 //@           (forall j int :: lo <= j && j < lo + n ==> has(keySigs, utxo.Keys[as.Signers[j] - offset])))
+//@   ensures [c02-agg-has] result == nil && SignedType(utxo.Type) && as != nil && NoWrap(offset, utxo.Keys) ==> forall i int :: 0 <= i && i < len(as.Signers) &&
+//@       offset <= as.Signers[i] && as.Signers[i] < offset + len(utxo.Keys) ==> has(keySigs, utxo.Keys[as.Signers[i] - offset]) -- every signer of the window is collected
 //@   -- what happens to the other entries of keySigs: the keys of this output are not yet collected (they are new objects: [c02-disjoint],
 //@   -- established by validateInputs), so every earlier entry is kept with its signature; every new entry is an existing object
 //@   ensures [c02-kept] forall p *crypto.Key :: old(has(keySigs, p)) ==> has(keySigs, p) && keySigs[p] == old(keySigs[p])
@@ -230,14 +232,38 @@ package common
 //@   ensures [c02-batch] err == nil && tx.AggregatedSignature == nil ==> forall k int, i uint16 :: 0 <= k && k < len(tx.Inputs) && OrdInputs(&tx.Transaction) &&
 //@       SignedType(InputUtxoType(store, tx.Inputs[k])) && has(tx.SignaturesMap[k], i) ==> i < InKeyCount(store, tx.Inputs[k]) &&
 //@       crypto.SigOK(seq(InKeyVal(store, tx.Inputs[k], i)), seq(hash), seq(*tx.SignaturesMap[k][i]))
-//@   ensures [c02-threshold] err == nil && tx.AggregatedSignature == nil && OrdInputs(&tx.Transaction) ==> forall k int :: 0 <= k && k < len(tx.Inputs) &&
+//@   ensures [c02-threshold] err == nil && tx.AggregatedSignature == nil && OrdInputs(&tx.Transaction) ==> forall k int :: {tx.Inputs[k]} 0 <= k && k < len(tx.Inputs) &&
 //@       SignedType(InputUtxoType(store, tx.Inputs[k])) ==> k < len(tx.SignaturesMap) && SigCount(tx.SignaturesMap[k]) >= InThreshold(store, tx.Inputs[k])
+//@   -- C02, aggregate signature: allKeys is the concatenation of the inputs' key lists in input order (input k owns the index window
+//@   -- [KeyOff(k), KeyOff(k+1))); for every input k that spends a script / node-remove output exactly the signers as.Signers[lo .. lo+n) fall into
+//@   -- its window and n reaches its threshold; AggregateVerify accepted the signature for `hash` over the transcript in which signer position i is
+//@   -- (index as.Signers[i], the key of that window at that offset)
+//@   ensures [c02-agg-threshold] err == nil && tx.AggregatedSignature != nil && OrdInputs(&tx.Transaction) ==>
+//@       (forall k int :: {tx.Inputs[k]} 0 <= k && k < len(tx.Inputs) && SignedType(InputUtxoType(store, tx.Inputs[k])) ==> SignersOK(tx.AggregatedSignature.Signers) &&
+//@           exists lo, n int :: {Witness2(lo, n)} Witness2(lo, n) && n >= InThreshold(store, tx.Inputs[k]) &&
+//@               AggWindow(tx.AggregatedSignature.Signers, lo, n, KeyOff(store, &tx.Transaction, k), KeyOff(store, &tx.Transaction, k) + InKeyCount(store, tx.Inputs[k])))
+//@   ensures [c02-agg-verified] err == nil && tx.AggregatedSignature != nil && OrdInputs(&tx.Transaction) ==>
+//@       forall k, i int :: 0 <= k && k < len(tx.Inputs) && SignedType(InputUtxoType(store, tx.Inputs[k])) && InAggWindow(store, tx, k, i) ==>
+//@           crypto.AggSigner(seq(tx.AggregatedSignature.Signature), seq(hash), len(tx.AggregatedSignature.Signers), i, tx.AggregatedSignature.Signers[i],
+//@               seq(InKeyVal(store, tx.Inputs[k], tx.AggregatedSignature.Signers[i] - KeyOff(store, &tx.Transaction, k))))
+//@   loop 0 invariant [c02-alllen] len(allKeys) == KeyOff(store, &tx.Transaction, rangeindex + 1)
+//@   loop 0 invariant [c02-offmono] forall k int :: {tx.Inputs[k]} 0 <= k && k <= rangeindex ==> 0 <= KeyOff(store, &tx.Transaction, k) && InKeyCount(store, tx.Inputs[k]) >= 0 &&
+//@       KeyOff(store, &tx.Transaction, k) + InKeyCount(store, tx.Inputs[k]) <= KeyOff(store, &tx.Transaction, rangeindex + 1)
+//@   loop 0 invariant [c02-allval] forall k, a int :: {tx.Inputs[k], allKeys[a]} 0 <= k && k <= rangeindex && KeyOff(store, &tx.Transaction, k) <= a &&
+//@       a < KeyOff(store, &tx.Transaction, k) + InKeyCount(store, tx.Inputs[k]) ==>
+//@       allKeys[a] != nil && *allKeys[a] == InKeyVal(store, tx.Inputs[k], a - KeyOff(store, &tx.Transaction, k))
+//@   loop 0 invariant [c02-aggok] tx.AggregatedSignature != nil && len(keySigs) > 0 ==> SignersOK(tx.AggregatedSignature.Signers)
+//@   loop 0 invariant [c02-aggwin] tx.AggregatedSignature != nil ==> forall k int :: {tx.Inputs[k]} 0 <= k && k <= rangeindex && SignedType(InputUtxoType(store, tx.Inputs[k])) ==>
+//@       SignersOK(tx.AggregatedSignature.Signers) && (exists lo, n int :: {Witness2(lo, n)} Witness2(lo, n) && n >= InThreshold(store, tx.Inputs[k]) &&
+//@           AggWindow(tx.AggregatedSignature.Signers, lo, n, KeyOff(store, &tx.Transaction, k), KeyOff(store, &tx.Transaction, k) + InKeyCount(store, tx.Inputs[k])))
+//@   loop 0 invariant [c02-agghas] tx.AggregatedSignature != nil ==> forall k, i int :: 0 <= k && k <= rangeindex && SignedType(InputUtxoType(store, tx.Inputs[k])) &&
+//@       InAggWindow(store, tx, k, i) ==> exists p *crypto.Key :: {has(keySigs, p)} has(keySigs, p) -- a signer in a window means that a key was collected
 //@   loop 0 invariant [c02-keys-old] forall p *crypto.Key :: has(keySigs, p) ==> allocated(p)
 //@   loop 0 invariant [c02-oldmaps] forall k int :: 0 <= k && k < len(tx.SignaturesMap) ==> !fresh(tx.SignaturesMap[k])
 //@   loop 0 invariant [c02-sigs] tx.AggregatedSignature == nil ==> forall k int, i uint16 :: 0 <= k && k <= rangeindex &&
 //@       SignedType(InputUtxoType(store, tx.Inputs[k])) && has(tx.SignaturesMap[k], i) ==> i < InKeyCount(store, tx.Inputs[k]) &&
 //@       (exists p *crypto.Key :: {has(keySigs, p)} has(keySigs, p) && p != nil && allocated(p) && keySigs[p] == tx.SignaturesMap[k][i] && *p == InKeyVal(store, tx.Inputs[k], i))
-//@   loop 0 invariant [c02-thr] tx.AggregatedSignature == nil ==> forall k int :: 0 <= k && k <= rangeindex &&
+//@   loop 0 invariant [c02-thr] tx.AggregatedSignature == nil ==> forall k int :: {tx.Inputs[k]} 0 <= k && k <= rangeindex &&
 //@       SignedType(InputUtxoType(store, tx.Inputs[k])) ==> k < len(tx.SignaturesMap) && SigCount(tx.SignaturesMap[k]) >= InThreshold(store, tx.Inputs[k])
 //@   loop 1 invariant [c02-lens] len(keys) == len(sigs)
 //@   loop 1 invariant [c02-wit] Witness1(len(keys) - 1) -- (constant true) puts the index of the element appended last into the solver's term set
